@@ -206,7 +206,7 @@ def blocks(tier, seed):
         Block('setup_consistency', sc, setup_case, 'seeds x chain lengths 2..%d x every hop / party view' % nmax, nshards=len(sc)),
         Block('release_cascade_search', rc, release_case,
               'BFS over opened-hop sets: every (target hop, opened hop, y) triple incl. second-chain scalars and the final key on every hop; '
-              'chains 2..%d, with/without refund keys, flags' % nmax, nshards=len(rc)),
+              'chains 2..%d, with/without refund keys, flags' % nmax, nshards=len(rc), backstop=3600),
     ]
 
 
